@@ -309,6 +309,11 @@ def cross_check_extraction(seed=1):
         u8 = "".join(chr(c) for c in t).encode("utf-8")
         cmds.append("U8CHARS " + hx(u8))
         exprs.append(("utf8_chars %s" % _coq_bytes(u8), "cps"))
+        # the driver's hand-written UTF-8 glue against the Coq definitions
+        cmds.append("GLUE8 " + hx(u8))
+        exprs.append(("utf8_chars %s" % _coq_bytes(u8), "cps"))
+        cmds.append("GLUE8E " + cps)
+        exprs.append(("utf8_encode %s" % lst, "bytes"))
     for e, b in [("windows-1251", b"\xcf\xf0\xe8\xe2\xe5\xf2"), ("iso-8859-7", b"\xd7\xe1\xdf\xf1\xe5\xae"), ("utf-8", b"h\xc3\xa9"), ("utf-16be", b"\x00A\x00"),
                  ("windows-1252", b"\x81"), ("koi8-r", b"abc\xc1")]:
         for mode in ["STRICT", "CHUNK"]:
